@@ -5,8 +5,8 @@ LEVEL = "model_checking"
 
 def run(ck):
     q = ck.quick()
-    fc.run_family(ck, "C04", ["panic2", "backlog1", "deliver2"] if q else list(fc.fs.SCENARIOS),
-                  ["C04"], 500 if q else 3000, 0 if q else 6000)
+    fc.run_family(ck, "C04", ["panic2", "panicclose2", "backlog1", "backlog2"] if q else list(fc.fs.SCENARIOS),
+                  ["C04"], 200 if q else 2000, 600 if q else 20000)
 
 
 META = {
